@@ -7,4 +7,9 @@ require (
 	golang.org/x/text v0.16.0
 )
 
+require (
+	golang.org/x/image v0.18.0 // indirect
+	golang.org/x/net v0.20.0 // indirect
+)
+
 replace github.com/tsawler/tabula => /repo
